@@ -39,7 +39,7 @@ def main():
             st = sh("/venv/bin/python", "-m", "pytest", "-q", "-p", "no:cacheprovider", "--timeout=120", cwd=wt, env=dict(os.environ, PYTHONPATH=wt))
             suite = st.stdout.strip().splitlines()[-1] if st.stdout.strip() else "?"
             res = []
-            for c in RELATED[prop]:
+            for c in [x for x in RELATED[prop] if x not in (meta.get("not_preserving_for") or {})]:
                 env = dict(os.environ, VERIF_REPO=wt, VERIF_NO_EVIDENCE="1")
                 env.pop("VERIF_REEXEC", None)
                 t = time.time()
